@@ -6,8 +6,13 @@ import (
 	"sort"
 	"sync"
 
+	"github.com/lidofinance/dc4bc/client/types"
 	"github.com/lidofinance/dc4bc/fsm/fsm"
+	"github.com/lidofinance/dc4bc/fsm/state_machines"
+	dpf "github.com/lidofinance/dc4bc/fsm/state_machines/dkg_proposal_fsm"
+	spf "github.com/lidofinance/dc4bc/fsm/state_machines/signature_proposal_fsm"
 	sif "github.com/lidofinance/dc4bc/fsm/state_machines/signing_proposal_fsm"
+	"github.com/lidofinance/dc4bc/fsm/types/requests"
 
 	"verif/mc/kit"
 	"verif/mc/world"
@@ -133,6 +138,59 @@ func explore05(r *kit.Run, n, t, view int) (states, transitions int, phases map[
 	classes := map[string]int{}
 	sampled := 0
 
+	// the same alphabet at the round FSM's own interface (the node is one caller of it; it loads
+	// the round from its dump for every message): used on every cancelled round reached
+	var fsmAlph []fsmInput
+	if req, err := types.FSMRequestFromMessage(labs[0].Init); err == nil {
+		fsmAlph = append(fsmAlph, fsmInput{"event_sig_proposal_init", spf.EventInitProposal, req})
+	}
+	for _, in := range alph[0] {
+		if req, err := types.FSMRequestFromMessage(in.Msg); err == nil {
+			fsmAlph = append(fsmAlph, fsmInput{in.Label, in.Event, req})
+		}
+	}
+	fsmAlph = append(fsmAlph,
+		fsmInput{"event_dkg_init_process", dpf.EventDKGInitProcess, requests.DefaultRequest{CreatedAt: world.T0}},
+		fsmInput{"event_signing_init", sif.EventSigningInit, requests.DefaultRequest{CreatedAt: world.T0}},
+		fsmInput{"event_signing_restart", sif.EventSigningRestart, requests.DefaultRequest{CreatedAt: world.T0}},
+	)
+	var fsmSeen sync.Map
+	fsmLevel := 0
+	cancelledAtFSM := func(raw []byte, stB fsm.State, trace func() interface{}) {
+		if _, dup := fsmSeen.LoadOrStore(string(raw), true); dup {
+			return
+		}
+		for _, in := range fsmAlph {
+			var resp *fsm.Response
+			var dump []byte
+			var err error
+			func() {
+				defer func() {
+					if rec := recover(); rec != nil {
+						err = fmt.Errorf("PANIC %v", rec)
+					}
+				}()
+				inst, ferr := state_machines.FromDump(raw)
+				if ferr != nil {
+					err = ferr
+					return
+				}
+				resp, dump, err = inst.Do(in.Event, in.Req)
+			}()
+			mu.Lock()
+			fsmLevel++
+			mu.Unlock()
+			if err != nil {
+				continue
+			}
+			var after state_machines.FSMDump
+			_ = json.Unmarshal(dump, &after)
+			if !cancelledStates[after.State] || (resp != nil && !cancelledStates[resp.State]) {
+				r.Violation("C05/left-cancelled-state/fsm-interface/"+string(in.Event), fmt.Sprintf("the cancelled round (%s), loaded from its dump, accepts %s and goes to %s", stB, in.Label, after.State), append(trace().([]string), in.Label))
+			}
+		}
+	}
+
 	next := func(w int, s *xsearch.St) ([]*xsearch.St, error) {
 		lab := labs[w]
 		cur := s.Data.(*st05)
@@ -144,6 +202,9 @@ func explore05(r *kit.Run, n, t, view int) (states, transitions int, phases map[
 		stB := dB.State
 		pB, okB := phaseOfState[stB]
 		cancB := cancelledStates[stB]
+		if cancB {
+			cancelledAtFSM(snap.Rounds()[round], stB, func() interface{} { return s.Trace() })
+		}
 		mu.Lock()
 		phases[string(stB)]++
 		mu.Unlock()
@@ -274,6 +335,7 @@ func explore05(r *kit.Run, n, t, view int) (states, transitions int, phases map[
 	for _, l := range labs {
 		l.Node.Stop()
 	}
+	r.Add("cancelled_rounds_fed_at_the_fsm_interface", fsmLevel)
 	return res.States, res.Transitions, phases
 }
 
